@@ -808,7 +808,11 @@ func c19RunEnv(c *c19Case, r *core.Rec) {
 		r.AddTransitions(1)
 		what := fmt.Sprintf("%s with %v: %s", c.Fmt, c.Names, op)
 		if pi != nil {
-			r.Violatef(op+"-panic:"+pi.Frame+":"+panicClass(pi.Value), "%s: %s\n%s", what, pi.Value, pi.Stack)
+			sigOp := op
+			if strings.HasPrefix(op, "staged") {
+				sigOp = "repair" // the staged calls are what Repair is made of: the same failing input at the same call site is the same failure
+			}
+			r.Violatef(sigOp+"-panic:"+pi.Frame+":"+panicClass(pi.Value), "%s: %s\n%s", what, pi.Value, pi.Stack)
 			continue
 		}
 		r.Outcome(fmt.Sprintf("env %s %s %s", c.Fmt, op, errClass(verr)))
@@ -991,19 +995,36 @@ func c19RunP2(c *c19Case, r *core.Rec) {
 	var memObs scen.P2Obs
 	memPanic := false
 	var ms0, ms1 runtime.MemStats
-	for _, op := range []string{"verify", "repair"} {
+	for _, op := range []string{"verify", "repair", "staged-fp", "staged-pf"} {
 		f2 := fs.Clone()
 		runtime.ReadMemStats(&ms0)
 		var verr error
 		var counts par2.ShardCounts
 		var rres par2.RepairResult
 		pi := core.Catch(func() {
-			if op == "verify" {
+			switch op {
+			case "verify":
 				res, e := par2.VerifVerify(f2, "/d/s.par2", par2.VerifyOptions{NumGoroutines: 1})
 				verr, counts = e, res.ShardCounts
-			} else {
+			case "repair":
 				res, e := par2.VerifRepair(f2, "/d/s.par2", par2.RepairOptions{NumGoroutines: 1, DoubleCheck: len(c.Muts) == 2})
 				verr, rres = e, res
+			default:
+				// the staged Decoder API in both load orders, stopping at the first error
+				var d *par2.Decoder
+				if d, verr = par2.VerifNewDecoder(f2, par2.DoNothingDecoderDelegate{}, "/d/s.par2", 1); verr != nil {
+					return
+				}
+				stages := []func() error{d.LoadFileData, d.LoadParityData}
+				if op == "staged-pf" {
+					stages = []func() error{d.LoadParityData, d.LoadFileData}
+				}
+				for _, st := range stages {
+					if verr = st(); verr != nil {
+						return
+					}
+				}
+				_, verr = d.Repair(len(c.Muts) == 2)
 			}
 		})
 		runtime.ReadMemStats(&ms1)
@@ -1012,14 +1033,18 @@ func c19RunP2(c *c19Case, r *core.Rec) {
 		what := fmt.Sprintf("PAR2 %v (where=%d data=%d) %s", c.Names, c.Where, c.Data, op)
 		if op == "verify" {
 			memObs.VerifyErr, memObs.Counts = verr, counts
-		} else {
+		} else if op == "repair" {
 			memObs.RepairErr, memObs.RepairedPaths, memObs.After = verr, rres.RepairedPaths, f2.Snapshot()
 		}
 		if pi != nil {
 			memPanic = true
 		}
 		if pi != nil {
-			r.Violatef(op+"-panic:"+pi.Frame+":"+panicClass(pi.Value), "%s: %s\n%s", what, pi.Value, pi.Stack)
+			sigOp := op
+			if strings.HasPrefix(op, "staged") {
+				sigOp = "repair" // the staged calls are what Repair is made of: the same failing input at the same call site is the same failure
+			}
+			r.Violatef(sigOp+"-panic:"+pi.Frame+":"+panicClass(pi.Value), "%s: %s\n%s", what, pi.Value, pi.Stack)
 			continue
 		}
 		if alloc > bound {
@@ -1077,7 +1102,7 @@ func c19RunP2(c *c19Case, r *core.Rec) {
 			}
 			r.Count("verify_results", 1)
 		}
-		if op == "repair" {
+		if op != "verify" {
 			for _, w := range f2.Writes() {
 				cp := path.Clean(w.Path)
 				wants, ok := decl[cp]
@@ -1193,16 +1218,38 @@ func c19RunP1(c *c19Case, r *core.Rec) {
 	}
 	bound := c19AllocBound(presentBytes, 0, 0)
 	var ms0, ms1 runtime.MemStats
-	for _, op := range []string{"verify", "repair"} {
+	// besides the one-shot wrappers: the staged Decoder API in both load orders (data files first, as the wrappers do,
+	// and recovery data first), stopping at the first error - a validation that relies on what an earlier stage loaded
+	// must not depend on the order of the stages
+	for _, op := range []string{"verify", "repair", "staged-fp", "staged-pf"} {
 		f2 := fs.Clone()
 		runtime.ReadMemStats(&ms0)
 		var verr error
 		var res par1.VerifyResult
 		pi := core.Catch(func() {
-			if op == "verify" {
+			switch op {
+			case "verify":
 				res, verr = par1.VerifVerify(f2, "/d/s.par", par1.VerifyOptions{VerifyAllData: true})
-			} else {
+			case "repair":
 				_, verr = par1.VerifRepair(f2, "/d/s.par", par1.RepairOptions{DoubleCheck: len(c.Muts) == 2})
+			default:
+				var d *par1.Decoder
+				if d, verr = par1.VerifNewDecoder(f2, par1.DoNothingDecoderDelegate{}, "/d/s.par"); verr != nil {
+					return
+				}
+				stages := []func() error{d.LoadFileData, d.LoadParityData}
+				if op == "staged-pf" {
+					stages = []func() error{d.LoadParityData, d.LoadFileData}
+				}
+				for _, st := range stages {
+					if verr = st(); verr != nil {
+						return
+					}
+				}
+				if _, verr = d.VerifyAllData(); verr != nil {
+					return
+				}
+				_, verr = d.Repair(len(c.Muts) == 2)
 			}
 		})
 		runtime.ReadMemStats(&ms1)
@@ -1210,7 +1257,11 @@ func c19RunP1(c *c19Case, r *core.Rec) {
 		alloc := ms1.TotalAlloc - ms0.TotalAlloc
 		what := fmt.Sprintf("PAR1 %v (where=%d data=%d) %s", c.Names, c.Where, c.Data, op)
 		if pi != nil {
-			r.Violatef(op+"-panic:"+pi.Frame+":"+panicClass(pi.Value), "%s: %s\n%s", what, pi.Value, pi.Stack)
+			sigOp := op
+			if strings.HasPrefix(op, "staged") {
+				sigOp = "repair" // the staged calls are what Repair is made of: the same failing input at the same call site is the same failure
+			}
+			r.Violatef(sigOp+"-panic:"+pi.Frame+":"+panicClass(pi.Value), "%s: %s\n%s", what, pi.Value, pi.Stack)
 			continue
 		}
 		if alloc > bound {
@@ -1226,7 +1277,7 @@ func c19RunP1(c *c19Case, r *core.Rec) {
 			}
 			r.Count("verify_results", 1)
 		}
-		if op == "repair" {
+		if op != "verify" {
 			for _, w := range f2.Writes() {
 				cp := path.Clean(w.Path)
 				sum := md5.Sum(w.Data)
